@@ -224,7 +224,12 @@ class Ledger:
                 del self.data[d]
             del self.holes[h]
             self.dead_holes.add(h)
-        elif k in ("reopen", "reopen_lookups"):
+        elif k == "push":
+            for h, did, vals in op["split"]:
+                pg = self.pg_by_name(h, op["pg"])
+                self.data[did] = {"h": h, "name": 100 + op["name"], "vals": list(vals), "pg": pg, "depth": False, "kind": "float"}
+                self.pgs[pg]["members"].append(did)
+        elif k in ("reopen", "reopen_lookups", "reopen_cold"):
             self.ws_removed = set()
             self.dropped_pg_names = set()
         # save_hole, remove_via_group: nothing changes
@@ -393,6 +398,16 @@ def gen_case(rng, nops, version):
             dk = led.data[d].get("kind", "float")
             old = led.data[d]["name"] - 100
             state["reopen_after"] = 0
+            fam = lambda k: "text" if k == "text" else "number"   # noqa: E731
+            sibs = [led.data[x]["name"] - 100 for x in datas if x != d and led.data[x]["name"] != led.data[d]["name"]
+                    and fam(led.data[x].get("kind", "float")) == fam(dk)]
+            if sibs and rng.chance(35):
+                # the name of another data set of the same hole: two data sets under one label, each with its own row;
+                # then new values for the renamed one, and the case ends (its removal would take the sibling's key: rename findings)
+                emit({"op": "rename", "h": h, "d": d, "new": rng.choice(sibs)})
+                n = len(led.data[d]["vals"])
+                emit({"op": "set_values", "h": h, "d": d, "vals": _vals(rng, n, 50, dk), "kind": dk})
+                return False
             emit({"op": "rename", "h": h, "d": d, "new": 4 + rng.below(4)})
             reopened = False
             for _ in range(rng.range(0, 3)):
@@ -415,6 +430,21 @@ def gen_case(rng, nops, version):
         elif kind == "add_pg":
             emit({"op": "add_pg", "h": h, "pg": rng.below(3), "pgid": fresh()})
         elif kind in ("reopen", "reopen_lookups"):
+            if kind == "reopen" and rng.chance(30) and not led.renamed and not led.dead_renamed:
+                # a cold session: the first thing done after the re-open is the removal of a hole or of a property group whose
+                # data were never touched in this session
+                hh = rng.choice(holes)
+                pgs = led.holes[hh]["pgs"]
+                if pgs and rng.chance(50):
+                    emit({"op": "reopen_cold"})
+                    emit({"op": "remove_pg", "h": hh, "pg": rng.choice(pgs), "ws": rng.chance(50)})
+                    emit({"op": "reopen"})
+                    return True
+                if len(holes) > 1:
+                    emit({"op": "reopen_cold"})
+                    emit({"op": "remove_hole", "h": hh, "ws": rng.chance(50)})
+                    emit({"op": "reopen"})
+                    return True
             emit({"op": kind})
             if rng.chance(35):
                 state["reopen_after"] = 1
@@ -446,11 +476,51 @@ def gen_case(rng, nops, version):
     return case
 
 
+def gen_table_case(rng, version):
+    """the group-wide table: holes sharing one depth group, columns pushed through DrillholesGroupTable.add_values_to_property_group
+    with names sorting before / between / after the existing ones, the table read from the SAME object and from a fresh one"""
+    nid = [0]
+
+    def fresh():
+        nid[0] += 1
+        return nid[0]
+
+    ops, groups = [], {}
+    nh = rng.range(1, 4)
+    for _ in range(nh):
+        h = fresh()
+        ops.append({"op": "add_hole", "h": h, "surv": list(range(rng.range(1, 3)))})
+        n = rng.range(1, 4)
+        names = rng.sample([0, 1, 3], rng.range(1, 3))
+        first = True
+        for nm in names:
+            m = n if rng.chance(70) else rng.range(0, n)
+            ops.append({"op": "add_data", "h": h, "pg": 0, "name": nm, "pgid": fresh(), "depid": fresh(), "did": fresh(),
+                        "depth": [1000 + i for i in range(n)] if first else None, "vals": _vals(rng, m, 10 * h, "float"), "kind": "float"})
+            first = False
+        groups[h] = n
+    if rng.chance(50):
+        ops.append({"op": "reopen"})
+    pool = rng.shuffle([8, 9, 12, 13])      # as strings: d12 < d13 < d2 < d3 < d8 < d9, and d0 < d1 < d12
+    for j in range(rng.range(1, 3)):
+        total = sum(groups.values())
+        ops.append({"op": "push", "pg": 0, "name": pool[j], "vals": [500 * (j + 1) + i + (0.5 if rng.chance(20) else 0) for i in range(total)],
+                    "ids": {str(h): fresh() for h in groups}})
+        if rng.chance(30):
+            hh = rng.choice(sorted(groups))
+            ops.append({"op": "set_surveys", "h": hh, "surv": list(range(rng.range(1, 4)))})
+    ops.append({"op": "reopen"})
+    return {"version": version, "f32": rng.chance(40), "ops": ops}
+
+
 def generate(rng, tier):
     n = 150 if tier == "quick" else 3000
     cases = []
     for i in range(n):
-        cases.append(gen_case(rng, rng.range(8, 30), 2.0 if i % 2 == 0 else 2.1))
+        if i % 9 == 4:
+            cases.append(gen_table_case(rng, 2.0 if i % 2 == 0 else 2.1))
+        else:
+            cases.append(gen_case(rng, rng.range(8, 30), 2.0 if i % 2 == 0 else 2.1))
     return cases
 
 
@@ -496,6 +566,7 @@ class _Drv:
         self.g = None
         self.guid = None
         self.ftype = "float32" if case.get("f32") else "float64"   # users hand in either; float32 is never promoted by np.hstack
+        self.tables = {}
 
     # ---- id map
     def num(self, u):
@@ -522,8 +593,13 @@ class _Drv:
         raise _NoEntity(f"hole {h}")
 
     def data(self, h, d):
-        for c in self.hole(h).children:
+        hole = self.hole(h)
+        for c in hole.children:
             if c.uid == self.uid_of.get(d) and not hasattr(c, "properties"):
+                return c
+        if d in self.uid_of:        # not loaded yet in this session
+            c = hole.get_entity(self.uid_of[d])[0]
+            if c is not None:
                 return c
         raise _NoEntity(f"data {d}")
 
@@ -754,7 +830,35 @@ class _Drv:
         else:
             raise ValueError(k)
 
-    def reopen(self, step, lookups=False):
+    def table_rows(self, dt):
+        return {"cols": list(dt.dtype.names),
+                "rows": [[self.num(r[0])] + [None if x == -2147483648 else _num(x, api=True) for x in r[1:]] for r in dt.tolist()]}
+
+    def push(self, op, step):
+        """DrillholesGroupTable.add_values_to_property_group on a kept table object, then the table read from the same object"""
+        import numpy as np
+
+        name = f"pg{op['pg']}"
+        tab = self.tables.get(name)
+        if tab is None:
+            tab = self.g.drillholes_tables[name]
+            self.tables[name] = tab
+        before = {h: set(c.uid for c in hole.children) for h, hole in ((h, self.hole(int(h))) for h in op["ids"])}
+        tab.add_values_to_property_group(f"d{op['name']}", np.array([float(v) for v in op["vals"]], dtype=self.ftype))
+        for h, did in op["ids"].items():
+            for c in self.hole(int(h)).children:
+                if c.uid not in before[h] and str(c.uid) not in self.id_of:
+                    self.reg(c, did)
+        same = {}
+        try:
+            same["table"] = self.table_rows(tab.depth_table)
+            props = tuple(tab.properties)
+            same["by_name"] = self.table_rows(tab.depth_table_by_name(props, spatial_index=True))
+        except Exception as e:  # noqa: BLE001
+            same["error"] = type(e).__name__ + ": " + str(e)[:160]
+        step["same"] = {name: same}
+
+    def reopen(self, step, lookups=False, cold=False):
         import uuid as _uuid
         import h5py
         from geoh5py import Workspace
@@ -778,6 +882,10 @@ class _Drv:
             step["closed"] = {"tabs": tabs, "objs": objs, "recs": self.recs(attrs), "encoding": enc}
         self.ws = Workspace(self.path, mode="r+")
         self.g = self.ws.get_entity("G")[0]
+        self.tables = {}
+        if cold:
+            step["snap"] = self.snapshot()      # nothing of the holes is touched: children and values stay unloaded
+            return
         self.load_all()
         step["snap"] = self.snapshot()
         step["view"] = self.tables_view()
@@ -787,9 +895,9 @@ class _Drv:
         steps = []
         for op in ops:
             step = {}
-            if op["op"] in ("reopen", "reopen_lookups"):
+            if op["op"] in ("reopen", "reopen_lookups", "reopen_cold"):
                 try:
-                    self.reopen(step, lookups=op["op"] == "reopen_lookups")
+                    self.reopen(step, lookups=op["op"] == "reopen_lookups", cold=op["op"] == "reopen_cold")
                 except Exception as e:  # noqa: BLE001
                     step["hard"] = type(e).__name__
                     step["msg"] = str(e)[:200]
@@ -798,7 +906,10 @@ class _Drv:
                 steps.append(step)
                 continue
             try:
-                self.run_op(op)
+                if op["op"] == "push":
+                    self.push(op, step)
+                else:
+                    self.run_op(op)
             except _NoEntity as e:
                 step["hard"] = "NoEntity"
                 step["msg"] = str(e)[:200]
@@ -818,6 +929,8 @@ class _Drv:
                     break
                 step["soft"] = name
             step["snap"] = self.snapshot()
+            if op["op"] == "push":
+                step["view"] = self.tables_view()       # fresh table objects
             if extra is not None:
                 extra(step)
             steps.append(step)
@@ -888,6 +1001,19 @@ def drive_one(case, work):
 
 
 # ----------------------------------------------------------------------------- Coq case terms
+def push_split(op, prev_snap, led_names):
+    """add_values_to_property_group hands hole by hole (in the order of the depth rows) the slice of `values` that lies at the
+    hole's depth rows; returns [(hole, data id, values)]"""
+    assoc = led_names
+    rows = sorted(prev_snap["tabs"].get(assoc, {"rows": []})["rows"], key=lambda r: r[0])
+    out = []
+    for r in rows:
+        h = r[2]
+        if str(h) in op["ids"]:
+            out.append([h, op["ids"][str(h)], op["vals"][r[0]: r[0] + r[1]]])
+    return out
+
+
 def _zenc(v):
     """values as integers for the Coq terms: numbers doubled (halves are exact), text as a base-27 number above 10^6"""
     if isinstance(v, str):
@@ -938,8 +1064,8 @@ def _op_term(op):
         return "RemovePG %s %s %s" % (cnat(op["h"]), cnat(op["pg"]), cbool(op["ws"]))
     if k == "remove_hole":
         return "RemoveHole %s %s" % (cnat(op["h"]), cbool(op["ws"]))
-    if k in ("reopen", "reopen_lookups"):
-        return "Reopen"     # a session of look-ups that find nothing changes nothing
+    if k in ("reopen", "reopen_lookups", "reopen_cold"):
+        return "Reopen"     # a session of look-ups that find nothing changes nothing; a cold session starts from the same state
     raise _Inexpressible("operation " + k)
 
 
@@ -1014,6 +1140,21 @@ def _obs_terms(steps):
     return evs
 
 
+def _op_terms(ops, steps):
+    """Coq terms of the operations; a column push is the sequence of add_data calls the table makes, hole by hole"""
+    out = []
+    for i, op in enumerate(ops[: len(steps)]):
+        if op["op"] != "push":
+            out.append(_op_term(op))
+            continue
+        if i == 0 or "snap" not in steps[i - 1]:
+            raise _Inexpressible("push without a previous snapshot")
+        for h, did, vals in push_split(op, steps[i - 1]["snap"], "DEPTH"):
+            out.append(_op_term({"op": "add_data", "h": h, "pg": op["pg"], "name": op["name"], "pgid": 4990, "depid": 4991, "did": did,
+                                 "depth": None, "vals": vals}))
+    return out
+
+
 def _complete(ops, steps):
     return len(steps) == len(ops) or (steps and "hard" in steps[-1])
 
@@ -1027,6 +1168,9 @@ def case_term(case, obs):
         if not _complete(case["ops"], obs["steps"]):
             return "false"
         evs = _obs_terms(obs["steps"])
+        if any(o["op"] == "push" for o in case["ops"]):
+            # the per-hole add_data calls of one push are observed together: only the last one has a snapshot
+            return _push_case_term(case, obs)
         ops = clist(_op_term(o) for o in case["ops"][: len(obs["steps"])])
         if case.get("copy_ops") is None or "copy" not in obs:
             return "agree %s %s" % (ops, clist(evs))
@@ -1039,6 +1183,25 @@ def case_term(case, obs):
         return "agree_copy %s %s %s %s %s" % (ops, clist(evs), cops, clist(cevs), clist("(%s)" % _snap_term(x) for x in ssnaps))
     except _Inexpressible:
         return "false"
+
+
+def _push_case_term(case, obs):
+    """cases with column pushes: one observed step per push, several model steps; compare at the observed steps only"""
+    steps = obs["steps"]
+    segs = []
+    for i, op in enumerate(case["ops"][: len(steps)]):
+        stp = steps[i]
+        if "hard" in stp or "soft" in stp:
+            return "false"
+        if op["op"] == "push":
+            if i == 0:
+                return "false"
+            terms = [_op_term({"op": "add_data", "h": h, "pg": op["pg"], "name": op["name"], "pgid": 4990, "depid": 4991, "did": did,
+                               "depth": None, "vals": vals}) for h, did, vals in push_split(op, steps[i - 1]["snap"], "DEPTH")]
+        else:
+            terms = [_op_term(op)]
+        segs.append("(%s, %s)" % (clist(terms), _snap_term(stp["snap"])))
+    return "agree_segments %s" % clist(segs)
 
 
 def model_term(case):
@@ -1167,7 +1330,7 @@ def _check_snapshot(led, sn, where, fails, readback=True):
         add("object-ids", f"Concatenated object IDs {sn['objs']} != live holes {sorted(led.holes)}")
 
 
-def _check_view(led, view, sn, where, fails, stats=None):
+def _check_view(led, view, sn, where, fails, stats=None, only=None):
     """Specification: the table of group name P lists, hole after hole (in the order of the depth rows), the depths of the
     hole's group P and, for every data name occurring in a group P, the hole's values (no-data where the hole lacks it)."""
     if not isinstance(view, dict):
@@ -1190,6 +1353,8 @@ def _check_view(led, view, sn, where, fails, stats=None):
            for d in led.pgs[p]["members"]):
         degenerate.append("resized depth")
     for pname in sorted({x["name"] for x in led.pgs.values()}):
+        if only is not None and f"pg{pname}" != only:
+            continue
         full = [p for p in led.pgs if led.pgs[p]["name"] == pname and led.depth_of(p) is not None]
         tab = view.get(f"pg{pname}")
         if tab is None:
@@ -1223,7 +1388,10 @@ def _check_view(led, view, sn, where, fails, stats=None):
             p = holes_p[h]
             by_name = {label_name(led.data[d]["name"]): led.data[d]["vals"] for d in led.pgs[p]["members"]}
             for i in range(len(by_name.get(assoc, []))):
-                exp.append([h] + [(by_name[c][i] if c in by_name else None) for c in [assoc] + names])
+                # in the order in which THIS table lists its columns: each column name must come with that data set's values
+                exp.append([h] + [(by_name[c][i] if c in by_name else None) for c in (cols if sorted(cols[1:]) == names else [assoc] + names)])
+        if sorted(cols[1:]) == names and cols[:1] == [assoc]:
+            cols = [assoc] + names          # same columns, another order
         if stats is not None:
             stats["tables_compared"] = stats.get("tables_compared", 0) + 1
             if cols == [assoc] + names and tab["rows"] == exp:
@@ -1241,6 +1409,10 @@ def _walk(case, led, ops, steps, prefix, fails, stats, src_led=None):
             return False
         stp = steps[i]
         where = f"{prefix}step {i} {op['op']}"
+        if op["op"] == "push" and "hard" not in stp:
+            pgs = [p for p in led.pgs if led.pgs[p]["name"] == op["pg"] and led.depth_of(p) is not None]
+            assoc = label_name(led.data[led.depth_of(pgs[0])]["name"]) if pgs else "DEPTH"
+            op = dict(op, split=push_split(op, steps[i - 1]["snap"], assoc) if i > 0 and "snap" in steps[i - 1] else [])
         exp = led.expected_error(op)
         if op["op"] == "lookup":
             led.lookup_miss = True
@@ -1298,12 +1470,24 @@ def _walk(case, led, ops, steps, prefix, fails, stats, src_led=None):
                 fails.append({"key": "reopen-changes-tables", "what": f"{where}: tables on file {stp['closed']['tabs']} != after re-open {stp['snap']['tabs']}"})
             _check_snapshot(before, {"tabs": stp["closed"]["tabs"], "objs": stp["closed"]["objs"], "recs": stp["closed"]["recs"],
                                      "vals": []}, where + " (file after close)", fails, readback=False)
-        _check_snapshot(led, stp["snap"], where, fails)
+        if op["op"] == "reopen_cold":
+            led.cold = True
+        elif op["op"] in ("reopen", "reopen_lookups"):
+            led.cold = False
+        # in a cold session the data sets are not loaded: nothing to read through the API yet
+        _check_snapshot(led, stp["snap"], where, fails, readback=not getattr(led, "cold", False))
         if src_led is not None and "src" in stp:
             # the SOURCE group, re-read after the operation on the copy, must be what it was
             _check_snapshot(src_led, stp["src"], where + " (source re-read)", fails)
         if "view" in stp:
             _check_view(led, stp["view"], stp["snap"], where, fails, stats)
+        for pgn, same in (stp.get("same") or {}).items():
+            # the table object that pushed the column, read again
+            if "error" in same:
+                _check_view(led, {pgn: {"error": same["error"]}}, stp["snap"], where + " (same table object)", fails, stats)
+            else:
+                _check_view(led, {pgn: same["table"]}, stp["snap"], where + " (same table object)", fails, stats, only=pgn)
+                _check_view(led, {pgn: same["by_name"]}, stp["snap"], where + " (same table object, depth_table_by_name)", fails, stats, only=pgn)
     return True
 
 
